@@ -1,1 +1,341 @@
-pub fn cmd_obs(_args: &[String]) {}
+//! C10: observe every construction path of the validated string types of zbus_names and of
+//! zvariant::ObjectPath on byte strings (valid UTF-8; the API takes `&str`).
+//!
+//! One output line per input string:
+//!   {"id", "s": [bytes], "fam", "k": {"<kind>": [outcome per path, in the order of `paths()`]}}
+//! outcome: 0 = Err, 1 = Ok and the constructed value reads back as the input, 2 = panic,
+//!          3 = path not applicable to this input, 5 = Ok but the value reads back differently.
+//! `gram obs-names paths` prints the path names per kind (used by the glue for messages only).
+//! The server GUID of the property belongs to a zbus-dependent crate and is observed there.
+use crate::cases::for_each_case;
+use crate::model::{bytes_of, guarded, jbytes, Rng};
+use serde_json::{json, Map, Value as J};
+use std::borrow::Cow;
+use std::io::Write;
+use std::sync::Arc;
+use zbus_names::{
+    BusName, ErrorName, InterfaceName, MemberName, OwnedBusName, OwnedErrorName, OwnedInterfaceName, OwnedMemberName,
+    OwnedPropertyName, OwnedUniqueName, OwnedWellKnownName, PropertyName, UniqueName, WellKnownName,
+};
+use zvariant::serialized::{Context, Data};
+use zvariant::{ObjectPath, OwnedObjectPath, OwnedValue, Str, Value, LE};
+
+const NAME_PATHS: &[&str] = &[
+    "TryFrom<&str>",
+    "TryFrom<String>",
+    "TryFrom<Cow<str>>",
+    "TryFrom<Arc<str>>",
+    "TryFrom<zvariant::Str>",
+    "from_static_str",
+    "Owned::TryFrom<&str>",
+    "Owned::TryFrom<String>",
+    "TryFrom<Value>",
+    "TryFrom<OwnedValue>",
+    "Owned::TryFrom<Value>",
+    "Owned::TryFrom<OwnedValue>",
+    "Deserialize (D-Bus s)",
+    "Owned::Deserialize (D-Bus s)",
+    "Deserialize from a variant (D-Bus v)",
+];
+
+const PATH_PATHS: &[&str] = &[
+    "TryFrom<&str>",
+    "TryFrom<String>",
+    "TryFrom<Cow<str>>",
+    "TryFrom<&[u8]>",
+    "from_static_str",
+    "Owned::TryFrom<&str>",
+    "Owned::TryFrom<String>",
+    "Deserialize (D-Bus o)",
+    "Owned::Deserialize (D-Bus o)",
+    "variant (D-Bus v with signature o) -> Value -> TryFrom<Value>",
+    "variant (D-Bus v with signature o) -> Value -> Owned::TryFrom<Value>",
+    "Value::Str -> TryFrom<Value> (must be refused: wrong type)",
+];
+
+pub const KINDS: &[&str] = &["bus", "unique", "wellknown", "interface", "member", "error", "property", "objpath"];
+
+fn out<T, E>(r: Result<Result<T, E>, String>, same: impl Fn(&T) -> bool) -> u8 {
+    match r {
+        Ok(Ok(v)) => {
+            if same(&v) {
+                1
+            } else {
+                5
+            }
+        }
+        Ok(Err(_)) => 0,
+        Err(_) => 2,
+    }
+}
+
+/// D-Bus encoding of a string-like value (signature s / o): u32 length, bytes, NUL.
+fn dbus_string(s: &str) -> Vec<u8> {
+    let mut b = (s.len() as u32).to_le_bytes().to_vec();
+    b.extend_from_slice(s.as_bytes());
+    b.push(0);
+    b
+}
+
+/// D-Bus encoding of a variant holding a string-like value of signature `sig` ("s" or "o").
+fn dbus_variant(sig: &str, s: &str) -> Vec<u8> {
+    let mut b = vec![1u8, sig.as_bytes()[0], 0, 0]; // signature "x", NUL, padding to 4
+    b.extend_from_slice(&dbus_string(s));
+    b
+}
+
+macro_rules! name_kind {
+    ($fn:ident, $ty:ident, $owned:ident) => {
+        fn $fn(s: &str) -> Vec<u8> {
+            let same = |v: &$ty<'_>| v.as_str() == s;
+            let same_o = |v: &$owned| v.as_str() == s;
+            let leaked: &'static str = Box::leak(s.to_string().into_boxed_str());
+            let enc = dbus_string(s);
+            let enc_v = dbus_variant("s", s);
+            vec![
+                out(guarded(|| $ty::try_from(s)), same),
+                out(guarded(|| $ty::try_from(s.to_string())), same),
+                out(guarded(|| $ty::try_from(Cow::Borrowed(s))), same),
+                out(guarded(|| $ty::try_from(Arc::<str>::from(s))), same),
+                out(guarded(|| $ty::try_from(Str::from(s))), same),
+                out(guarded(|| $ty::from_static_str(leaked)), same),
+                out(guarded(|| $owned::try_from(s)), same_o),
+                out(guarded(|| $owned::try_from(s.to_string())), same_o),
+                out(guarded(|| $ty::try_from(Value::from(s))), same),
+                out(
+                    guarded(|| {
+                        let ov = OwnedValue::try_from(Value::from(s)).expect("OwnedValue of a string");
+                        $ty::try_from(ov)
+                    }),
+                    same,
+                ),
+                out(guarded(|| $owned::try_from(Value::from(s.to_string()))), same_o),
+                out(
+                    guarded(|| {
+                        let ov = OwnedValue::try_from(Value::from(s)).expect("OwnedValue of a string");
+                        $owned::try_from(ov)
+                    }),
+                    same_o,
+                ),
+                out(
+                    guarded(|| {
+                        let data = Data::new(enc.as_slice(), Context::new_dbus(LE, 0));
+                        let r: zvariant::Result<($ty<'_>, usize)> = data.deserialize();
+                        r.map(|(v, _)| v.to_owned())
+                    }),
+                    |v: &$ty<'static>| v.as_str() == s,
+                ),
+                out(
+                    guarded(|| {
+                        let data = Data::new(enc.as_slice(), Context::new_dbus(LE, 0));
+                        let r: zvariant::Result<($owned, usize)> = data.deserialize();
+                        r.map(|(v, _)| v)
+                    }),
+                    same_o,
+                ),
+                out(
+                    guarded(|| {
+                        let data = Data::new(enc_v.as_slice(), Context::new_dbus(LE, 0));
+                        let r: zvariant::Result<(Value<'_>, usize)> = data.deserialize();
+                        r.map_err(|e| e.to_string()).and_then(|(v, _)| {
+                            let ov = v.try_to_owned().map_err(|e| e.to_string())?;
+                            $owned::try_from(ov).map_err(|e| e.to_string())
+                        })
+                    }),
+                    same_o,
+                ),
+            ]
+        }
+    };
+}
+
+name_kind!(obs_bus, BusName, OwnedBusName);
+name_kind!(obs_unique, UniqueName, OwnedUniqueName);
+name_kind!(obs_wellknown, WellKnownName, OwnedWellKnownName);
+name_kind!(obs_interface, InterfaceName, OwnedInterfaceName);
+name_kind!(obs_member, MemberName, OwnedMemberName);
+name_kind!(obs_error, ErrorName, OwnedErrorName);
+name_kind!(obs_property, PropertyName, OwnedPropertyName);
+
+fn obs_objpath(s: &str) -> Vec<u8> {
+    let same = |v: &ObjectPath<'_>| v.as_str() == s;
+    let same_o = |v: &OwnedObjectPath| v.as_str() == s;
+    let leaked: &'static str = Box::leak(s.to_string().into_boxed_str());
+    let enc = dbus_string(s);
+    let enc_v = dbus_variant("o", s);
+    vec![
+        out(guarded(|| ObjectPath::try_from(s)), same),
+        out(guarded(|| ObjectPath::try_from(s.to_string())), same),
+        out(guarded(|| ObjectPath::try_from(Cow::Borrowed(s))), same),
+        out(guarded(|| ObjectPath::try_from(s.as_bytes())), same),
+        out(guarded(|| ObjectPath::from_static_str(leaked)), same),
+        out(guarded(|| OwnedObjectPath::try_from(s)), same_o),
+        out(guarded(|| OwnedObjectPath::try_from(s.to_string())), same_o),
+        out(
+            guarded(|| {
+                let data = Data::new(enc.as_slice(), Context::new_dbus(LE, 0));
+                let r: zvariant::Result<(ObjectPath<'_>, usize)> = data.deserialize();
+                r.map(|(v, _)| v.to_owned())
+            }),
+            |v: &ObjectPath<'static>| v.as_str() == s,
+        ),
+        out(
+            guarded(|| {
+                let data = Data::new(enc.as_slice(), Context::new_dbus(LE, 0));
+                let r: zvariant::Result<(OwnedObjectPath, usize)> = data.deserialize();
+                r.map(|(v, _)| v)
+            }),
+            same_o,
+        ),
+        out(
+            guarded(|| {
+                let data = Data::new(enc_v.as_slice(), Context::new_dbus(LE, 0));
+                let r: zvariant::Result<(Value<'_>, usize)> = data.deserialize();
+                r.and_then(|(v, _)| ObjectPath::try_from(v).map(|p| p.to_owned()))
+            }),
+            |v: &ObjectPath<'static>| v.as_str() == s,
+        ),
+        out(
+            guarded(|| {
+                let data = Data::new(enc_v.as_slice(), Context::new_dbus(LE, 0));
+                let r: zvariant::Result<(Value<'_>, usize)> = data.deserialize();
+                r.and_then(|(v, _)| OwnedObjectPath::try_from(v))
+            }),
+            same_o,
+        ),
+        // a string value is not an object path value, whatever it contains: 0 expected, reported as
+        // 3 (not applicable) when refused so that the line format stays "accepted iff valid"
+        match guarded(|| ObjectPath::try_from(Value::from(s)).map(|p| p.to_owned())) {
+            Ok(Err(_)) => 3,
+            Ok(Ok(_)) => 5,
+            Err(_) => 2,
+        },
+    ]
+}
+
+pub fn observe(s: &str, kinds: &[&str]) -> J {
+    let mut k = Map::new();
+    for kind in kinds {
+        let v = match *kind {
+            "bus" => obs_bus(s),
+            "unique" => obs_unique(s),
+            "wellknown" => obs_wellknown(s),
+            "interface" => obs_interface(s),
+            "member" => obs_member(s),
+            "error" => obs_error(s),
+            "property" => obs_property(s),
+            "objpath" => obs_objpath(s),
+            other => panic!("unknown kind {other}"),
+        };
+        k.insert(kind.to_string(), json!(v));
+    }
+    J::Object(k)
+}
+
+/// obs-names <cases> <out>   |   obs-names paths   |   obs-names rand <n> <seed> <out>
+pub fn cmd_obs(args: &[String]) {
+    if args[0] == "paths" {
+        let mut m = Map::new();
+        for k in KINDS {
+            m.insert(k.to_string(), json!(if *k == "objpath" { PATH_PATHS } else { NAME_PATHS }));
+        }
+        println!("{}", J::Object(m));
+        return;
+    }
+    if args[0] == "rand" {
+        return cmd_rand(&args[1..]);
+    }
+    let mut w = std::io::BufWriter::with_capacity(1 << 20, std::fs::File::create(&args[1]).expect("create out"));
+    let (mut accepted, mut nontrivial, mut skipped) = (0u64, 0u64, 0u64);
+    let cases = for_each_case(&args[0], |id, case| {
+        let bytes = bytes_of(&case["s"]);
+        let Ok(s) = std::str::from_utf8(&bytes) else {
+            skipped += 1;
+            return;
+        };
+        let k = observe(s, KINDS);
+        let any = k.as_object().unwrap().values().any(|v| v.as_array().unwrap().iter().any(|x| x == 1));
+        accepted += any as u64;
+        nontrivial += (bytes.len() >= 2) as u64;
+        let mut line = Map::new();
+        line.insert("id".into(), json!(id));
+        line.insert("s".into(), case["s"].clone());
+        line.insert("fam".into(), case.get("fam").cloned().unwrap_or(json!("")));
+        line.insert("k".into(), k);
+        writeln!(w, "{}", J::Object(line)).unwrap();
+    });
+    w.flush().unwrap();
+    println!(
+        "{}",
+        json!({"cases": cases, "accepted_by_some_kind": accepted, "nontrivial": nontrivial, "skipped_not_utf8": skipped})
+    );
+}
+
+/// Seeded random names: drawn from the grammars (elements over the allowed characters joined by
+/// '.' or '/', optional ':' prefix), half of them mutated; lengths up to ~300 bytes with a cluster
+/// around the 255-byte limit.
+fn cmd_rand(args: &[String]) {
+    let n: u64 = args[0].parse().expect("n");
+    let seed: u64 = args[1].parse().expect("seed");
+    let mut rng = Rng(seed.wrapping_mul(0x9E37_79B9).wrapping_add(0xC10));
+    let mut w = std::io::BufWriter::new(std::fs::File::create(&args[2]).expect("create"));
+    const FIRST: &[u8] = b"abzAMZ_";
+    const REST: &[u8] = b"abzAMZ_0189";
+    const JUNK: &[&str] = &["-", ".", ":", "/", " ", "é", "0", "@", "..", "//", "\u{7f}", "€"];
+    for id in 0..n {
+        let style = rng.below(5); // 0 member, 1 dotted, 2 unique, 3 path, 4 dotted with hyphens / digits
+        let target = match rng.below(6) {
+            0 => 250 + rng.below(10) as usize,
+            1 => 60 + rng.below(240) as usize,
+            _ => 1 + rng.below(24) as usize,
+        };
+        let mut s = String::new();
+        if style == 2 {
+            s.push(':');
+        }
+        if style == 3 {
+            s.push('/');
+        }
+        let sep = if style == 3 { '/' } else { '.' };
+        loop {
+            let elen = 1 + rng.below(if style == 0 { 40 } else { 8 }) as usize;
+            for i in 0..elen {
+                let set = if i == 0 && style != 2 && style != 4 { FIRST } else { REST };
+                let c = *rng.pick(set) as char;
+                s.push(if style == 4 && rng.chance(1, 6) { '-' } else { c });
+            }
+            if s.len() >= target {
+                break;
+            }
+            if style != 0 {
+                s.push(sep);
+            }
+        }
+        if rng.chance(1, 3) {
+            // cut to the exact target so that both sides of the 255-byte limit are hit
+            while s.len() > target {
+                s.pop();
+            }
+        }
+        if rng.chance(1, 2) {
+            let mut pos = rng.below(s.len() as u64 + 1) as usize;
+            while !s.is_char_boundary(pos) {
+                pos -= 1;
+            }
+            match rng.below(3) {
+                0 => s.insert_str(pos, *rng.pick(JUNK)),
+                1 => {
+                    if pos < s.len() {
+                        s.remove(pos);
+                    }
+                }
+                _ => {
+                    s.truncate(pos);
+                    s.push_str(*rng.pick(JUNK));
+                }
+            }
+        }
+        writeln!(w, "{}", json!({"id": id, "s": jbytes(s.as_bytes()), "fam": "rand"})).unwrap();
+    }
+    w.flush().unwrap();
+}
